@@ -44,6 +44,41 @@ STRUCT_SPECS = {
     'S_rep': (False, [('p', 'S_id', ()), ('q', 'S_id', ()), ('r', 'S_id', ())]),
 }
 STRUCT_ORDER = ['S_id', 'P_id', 'S_cs', 'P_cs', 'S_mix', 'P_mix', 'S_ff', 'S_arr', 'S_nest', 'S_deep', 'S_cz', 'S_one', 'S_rep']
+
+# Declared dtypes whose exact formats need MULTI-DIGIT numbers: array extents and runs of equal members (spelled as repeat
+# counts) from 10 up. The extents put every digit 0-9 into a non-leading position (second digit of two-digit numbers, second
+# and third digit of three-digit ones, 4th of four-digit ones) and include the round values 10/100/1000 and the 99/199 boundaries.
+# Arrays of the one-byte types are avoided: Cython converts char/signed char/unsigned char arrays to NUL-terminated bytes.
+WIDE_EXTENTS = [10, 21, 32, 43, 54, 65, 76, 87, 98, 19, 11, 29, 90, 99, 100, 109, 119, 190, 199, 208, 255, 1000, 1009]
+WIDE_ORDER = []
+
+
+def _wide_structs():
+    elem = ['short', 'int', 'double', 'unsigned short', 'float', 'long long']
+    groups = [WIDE_EXTENTS[i:i + 3] for i in range(0, len(WIDE_EXTENTS), 3)]
+    for gi, ext in enumerate(groups):
+        name = '%s_w%d' % ('P' if gi % 4 == 3 else 'S', gi)
+        fields = [('k', ['int', 'signed char', 'unsigned short'][gi % 3], ())]
+        for j, e in enumerate(ext):
+            t = elem[(gi + 2 * j) % len(elem)] if e < 100 else ['short', 'unsigned short'][j % 2]
+            dims = (e,)
+            if e < 100 and (gi + j) % 4 == 1:
+                dims = (2, e)
+            elif e < 100 and (gi + j) % 4 == 3:
+                dims = (e, 3)
+            fields.append(('v%d' % j, t, dims))
+        STRUCT_SPECS[name] = (name.startswith('P'), fields)
+        WIDE_ORDER.append(name)
+    # runs of equal scalar members: '12h19i10d' / '29b10q' when the exporter pools them into repeat counts
+    STRUCT_SPECS['S_run'] = (False, [('h%d' % i, 'short', ()) for i in range(12)] + [('i%d' % i, 'int', ()) for i in range(19)]
+                             + [('d%d' % i, 'double', ()) for i in range(10)])
+    STRUCT_SPECS['P_run'] = (True, [('b%d' % i, 'signed char', ()) for i in range(29)] + [('q%d' % i, 'long long', ()) for i in range(10)]
+                             + [('f%d' % i, 'float', ()) for i in range(101)])
+    WIDE_ORDER.extend(['S_run', 'P_run'])
+    STRUCT_ORDER.extend(WIDE_ORDER)
+
+
+_wide_structs()
 CT = {}
 
 
